@@ -122,6 +122,9 @@ META["rule"] += (
 META["rule"] += (
     " " + 'Added after the third round: 30 % of the climate networks built with non_local=True; the pure-Python twin with only_tri=True (upper triangle equal, lower triangle lag-mirrored); nearly collinear series for the partial correlation (cond 1e3 .. 1e7); CoupledTsonisClimateNetwork correlation; records of 200004 .. 600000 samples (histogram cells beyond 16 bit) and lags of 128 .. 260.')
 
+META["rule"] += (
+    " " + 'Added after the sixth round: a fifth of the CouplingAnalysis objects get [time, lat, lon] fields, C- or Fortran-ordered; the pure-Python MI twin with 16 .. 32 bins.')
+
 # --------------------------------------------------------------------------
 # helpers
 # --------------------------------------------------------------------------
@@ -269,6 +272,14 @@ def used_object(ctx, CouplingAnalysis, data, cid, salt=0):
     from pvm.gen.held import as_held
     r = ctx.rng("used", cid, salt)
     hd, htag = as_held(r, data, allow_list=False)
+    N_ = data.shape[1]
+    if N_ >= 4 and N_ % 2 == 0 and r.random() < 0.2:
+        # a field on a lat x lon grid, [time, lat, lon] (the documented 3-D
+        # input): node k is grid point (k // n_lon, k % n_lon), whatever the
+        # memory order of the array
+        f3 = np.asarray(data).reshape(data.shape[0], 2, N_ // 2)
+        hd = np.asfortranarray(f3) if r.random() < 0.6 else f3.copy()
+        htag = "3d-" + ("fortran" if hd.flags.f_contiguous else "c")
     ctx.count("input_held_as:" + htag)
     ca = CouplingAnalysis(hd, silence_level=3)
     if r.random() < 0.5:
@@ -827,10 +838,16 @@ def fam_mi(ctx, mods, r, k, cid):
     tp = int(r.integers(0, min(2, (T - 2) // 2) + 1))
     cr = T - 2 * tp
     pp = PurePy(data.copy(), silence_level=3)
+    # (the twin also with more bins than fit into four bits: 17 .. 32)
+    bins_main = bins
+    if r.random() < 0.4:
+        bins = int(r.choice([16, 17, 20, 24, 32]))
+        ctx.count("pure_mi_more_than_16_bins" if bins > 16
+                  else "pure_mi_16_bins")
     ok, PM = ctx.call(pp.mutual_information, bins=bins, tau_max=tp,
                       lag_mode="all")
     ctx.evals()
-    pcase = {**bcase, "pure_tau_max": tp}
+    pcase = {**bcase, "pure_tau_max": tp, "pure_bins": bins}
     if not ok:
         ctx.violation(f"{PP}.mutual_information:all:raises:"
                       f"{type(PM).__name__}", {**pcase, "exc": repr(PM)},
@@ -865,7 +882,7 @@ def fam_mi(ctx, mods, r, k, cid):
         ctx.count("pure_mi_compared")
     # twins agree where the documented assumption of the pure-Python
     # estimator (equally filled marginal bins) holds and windows coincide
-    if tp == 0 and uniform and nb_eff > 1:
+    if tp == 0 and uniform and nb_eff > 1 and bins == bins_main:
         ok, B0 = ctx.call(ca.mutual_information, tau_max=0,
                           estimator="binning", bins=bins, lag_mode="all")
         ctx.evals()
